@@ -165,6 +165,10 @@ func (w *Worker) goStmt(fr *frame, fv Value, args []Value, cc *ssa.CallCommon) {
 					return
 				}
 				if tp, ok := r.(targetPanic); ok {
+					// an uncaught panic in any goroutine kills the process: report it
+					// like an uncaught panic of the main goroutine (label no-panic,
+					// kind panic: the native replay counts a crashed process)
+					w.reportPanic(tp)
 					r = pathAbort{abError, "PANIC-IN-GOROUTINE " + name + ": " + w.panicString(tp)}
 				}
 				s.abort = r
